@@ -174,6 +174,10 @@ class IdentitySpec(Spec):
         from harness import identity
         return identity.run(choices, forced)
 
+    def deterministic_cases(self, tier):
+        from harness import identity
+        return identity.det_cases(tier)
+
 
 class ReadPathSpec(Spec):
     prop = "C08"
